@@ -137,6 +137,62 @@ def continue_after_fault(res, t, base, rep, feats, own, rng, origin):
     return True
 
 
+WARM = [
+    ("noop", "measurement"), ("cmp", "tags", ("k",), "==", "a"), ("not", ("cmp", "tags", ("k",), "==", "a")),
+    ("cmp", "fields", ("x",), ">=", 0), ("cmp", "measurement", (), "==", "m0"), ("cmp", "time", (), ">=", ("T", BASE_US, 0)),
+    ("exists", "tags", "j"),
+]
+
+
+def warm_reads(t):
+    """The same reads that are repeated after the fault, issued once before it."""
+    for ast in WARM:
+        q = qast.to_real(ast)
+        try:
+            t.db.search(q)
+            t.db.search(q, sorted=False)
+            t.db.get(q)
+            t.db.count(q)
+            t.db.contains(q)
+            t.db.select("measurement", q)
+        except Exception:  # noqa: BLE001
+            pass
+    try:
+        t.db.get_tag_values()
+        t.db.get_field_values("x")
+    except Exception:  # noqa: BLE001
+        pass
+
+
+def repeated_reads_agree(res, t, own, base, rep, feats, origin):
+    """Reads that were already answered before the fault are asked again: each raises or describes the object's own
+    storage as it is now (a remembered answer from before the failed operation is a silent wrong answer)."""
+    pts = [MPoint(c[0], c[1], dict(c[2]), dict(c[3])) for c in own]
+    for ast in WARM:
+        q = qast.to_real(ast)
+        sel = [p for p in pts if qast.holds(ast, p)]
+        for name, call, want in (
+            ("search", lambda: norm_points(t.db.search(q, sorted=False)), [p.canon() for p in sel]),
+            ("search(sorted)", lambda: norm_points(t.db.search(q)), [p.canon() for p in sorted(sel, key=lambda p: p.t)]),
+            ("get", lambda: (lambda g: None if g is None else norm_points([g])[0])(t.db.get(q)), sel[0].canon() if sel else None),
+            ("count", lambda: t.db.count(q), len(sel)),
+            ("contains", lambda: t.db.contains(q), bool(sel)),
+            ("select", lambda: list(t.db.select("measurement", q)), [p.m for p in sel]),
+        ):
+            try:
+                with quiet_stdout():
+                    got = call()
+            except Exception:  # noqa: BLE001
+                res.count(f"{origin}.repeated_read_raises")
+                continue
+            res.count(f"{origin}.repeated_reads_checked")
+            if got != want:
+                res.violate(Violation("C13", "repeated-read-disagrees-with-own-storage-after-io-error",
+                                      dict(base, read=name, query=qast.show(ast), observed=repr(got)[:300], own_storage_says=repr(want)[:300]), replay=rep, features=feats))
+                return False
+    return True
+
+
 def describe_op(t, out):
     return {"op": out.op if "q" not in out.op else dict(out.op, q=qast.show(out.op["q"])), "expected": repr(out.exp)[:200], "observed": repr(out.real)[:200],
             "exc": None if out.exc is None else repr(out.exc)[:100]}
@@ -216,6 +272,8 @@ def judge_after_fault(res, t, op, out, old, new, fault_label, scratch, origin="p
             if got != want:
                 res.violate(Violation("C13", "live-answer-disagrees-with-own-storage-after-io-error", dict(base, read=name, observed=repr(got)[:300], own_storage=repr(want)[:300]), replay=rep, features=feats))
                 return False
+    if own_ok and not repeated_reads_agree(res, t, own, base, rep, feats, origin):
+        return False
     # (2b) in a share of the cases: keep using the live object (further writes and reads)
     if own_ok and rng is not None and rng.random() < 0.3:
         return continue_after_fault(res, t, base, rep, feats, own, rng, origin)
@@ -285,6 +343,7 @@ def sweep_op(res, s, op, scratch, rng, tier):
             try:
                 mon = FaultAt(k, when, err)
                 with quiet_stdout():
+                    warm_reads(t)  # anything the object remembers about earlier answers is in place before the fault
                     out = run_with_monitor(t, op, mon)
                 if mon.hit is None:
                     res.count("fault_position_not_reached")
